@@ -9,11 +9,11 @@ LEVEL = "proof"
 def normal_progs(tier, seed):
     rng = random.Random(seed * 31337 + 7)
     progs = [p for p in core.all_progs(2, 2) if p.startswith("1RB")]
-    stride = 7 if tier == "thorough" else 101
+    stride = 7 if tier == "thorough" else 37
     for (s, c) in ((3, 2), (2, 3)):
         progs += [p for p in core.all_progs(s, c, stride=stride, offset=seed % stride) if p.startswith("1RB")]
         # all_progs varies slot A0 fastest: take also a dedicated normal-form enumeration
-    n = 30000 if tier == "thorough" else 4000
+    n = 60000 if tier == "thorough" else 50000
     for _ in range(n):
         s, c = rng.choice([(2, 2), (3, 2), (2, 3), (4, 2), (2, 4), (3, 3), (5, 2), (2, 5), (6, 2)])
         progs.append(core.rand_prog(rng, s, c, p_undef=rng.choice([0.0, 0.1, 0.2]), normal=True))
